@@ -5,6 +5,8 @@ function.  Each API call used by adf_bdd (lib/src/adfbiodivine.rs, parser.rs, ad
   BddVariableSetBuilder::{new, make_variables, build}, BddVariableSet::{variables, mk_false, mk_true, eval_expression},
   Bdd::{is_true, is_false, and, or, not, iff, imp, xor, var_select, var_exists, select, exists, restrict, sat_valuations, to_string, clone},
   BddValuation::value, BooleanExpression (Const, Variable, Not, And, Or, Xor, Imp, Iff)
+and, so that a change which reaches for a neighbouring call does not simply end inconclusive, a wider set at the end of the file
+(support_set, sat_clauses / BddPartialValuation, witnesses, cardinality, eval_in, quantifiers, mk_var / mk_literal / clauses, pointer-level access)
 
 What this assumes (stated in the evidence): the biodivine library computes Boolean functions correctly and canonically (is_true / is_false
 decide validity / unsatisfiability); `to_string` emits a reduced ordered node list `|var,lo,hi|...` with the two terminals first and
@@ -17,6 +19,7 @@ from_biodivine_vector, the Term conversions) is executed for real from its MIR."
 import z3
 from .engine import *
 from .models import deref, d1, unguard, it_list
+from .engine import Some, NONE
 
 BAD_NAME_CHARS = set('!&|^=<>()?:')      # biodivine-lib-bdd 0.5: NOT_IN_VAR_NAME
 
@@ -290,3 +293,159 @@ def _to_string(e, c, a):
 def install(e):
     for k, f in LOCAL.items(): e.models[k] = f
     e.enums['BooleanExpression'] = ['Const', 'Variable', 'Not', 'And', 'Or', 'Xor', 'Imp', 'Iff', 'Cond']
+
+
+# ---------------------------------------------------------------- further API a maintainer may reach for (same contract: a Bdd is its function)
+class BioPartial:
+    """BddPartialValuation: variable index -> bool for some variables"""
+    def __init__(self, vals=None): self.vals = dict(vals or {})
+    def clone(self, e): return BioPartial(self.vals)
+    def __repr__(self): return 'BddPartialValuation%r' % (self.vals,)
+
+
+def depends_on(e, b, i):
+    conds = []
+    for a in range(1 << b.n):
+        if (a >> i) & 1: continue
+        x, y = b.tab[a], b.tab[a | (1 << i)]
+        if isinstance(x, bool) and isinstance(y, bool):
+            if x != y: return True
+        else: conds.append(_not(_iff(x, y)))
+    if not conds: return False
+    return e.branch(z3.Or(*conds)) if len(conds) > 1 else truth(e, conds[0])
+
+@bmodel('impl Bdd::support_set')
+def _support_set(e, c, a):
+    b = deref(a[0])
+    return SetObj([Struct([i]) for i in range(b.n) if depends_on(e, b, i)])
+
+def paths_to_one(e, b):
+    nodes = node_list(e, b); out = []
+    if len(nodes) == 1: return out
+    if len(nodes) == 2: return [BioPartial()]
+    def rec(p, vals):
+        if p == 0: return
+        if p == 1: out.append(BioPartial(vals)); return
+        v, lo, hi = nodes[p]
+        rec(lo, dict(vals, **{v: False})); rec(hi, dict(vals, **{v: True}))
+    rec(len(nodes) - 1, {})
+    return out
+@bmodel('impl Bdd::sat_clauses')
+def _sat_clauses(e, c, a): return it_list(paths_to_one(e, deref(a[0])))
+@bmodel('impl Bdd::first_clause', 'impl Bdd::most_positive_clause', 'impl Bdd::most_negative_clause', 'impl Bdd::most_fixed_clause', 'impl Bdd::most_free_clause')
+def _first_clause(e, c, a):
+    ps = paths_to_one(e, deref(a[0]))
+    if not ps: return NONE()
+    if 'first' in c: return Some(ps[0])
+    raise Unsupported('biodivine clause selection ' + c)
+@bmodel('impl BddPartialValuation::get_value')
+def _pv_get(e, c, a):
+    v = deref(a[0]).vals.get(varidx(a[1]))
+    return NONE() if v is None else Some(v)
+@bmodel('impl BddPartialValuation::has_value')
+def _pv_has(e, c, a): return varidx(a[1]) in deref(a[0]).vals
+@bmodel('impl BddPartialValuation::set_value')
+def _pv_set(e, c, a):
+    unguard(a[0]).vals[varidx(a[1])] = bool(truth(e, a[2])); return UNIT
+@bmodel('impl BddPartialValuation::unset_value')
+def _pv_unset(e, c, a):
+    unguard(a[0]).vals.pop(varidx(a[1]), None); return UNIT
+@bmodel('impl BddPartialValuation::empty')
+def _pv_empty(e, c, a): return BioPartial()
+@bmodel('impl BddPartialValuation::from_values')
+def _pv_from_values(e, c, a): return BioPartial(dict(pairs_of(e, a[0])))
+@bmodel('impl BddPartialValuation::to_values')
+def _pv_to_values(e, c, a): return VecObj([Struct([Struct([i]), v]) for i, v in sorted(deref(a[0]).vals.items())])
+@bmodel('impl BddPartialValuation::cardinality')
+def _pv_card(e, c, a): return len(deref(a[0]).vals)
+
+def sat_list(e, b):
+    n = b.n
+    order = sorted(range(1 << n), key=lambda asg: [((asg >> i) & 1) for i in range(n)])
+    return [asg for asg in order if truth(e, b.tab[asg])]
+@bmodel('impl Bdd::sat_witness', 'impl Bdd::first_valuation')
+def _sat_witness(e, c, a):
+    xs = sat_list(e, deref(a[0]))
+    return Some(BioValuation(xs[0])) if xs else NONE()
+@bmodel('impl Bdd::last_valuation')
+def _last_valuation(e, c, a):
+    xs = sat_list(e, deref(a[0]))
+    return Some(BioValuation(xs[-1])) if xs else NONE()
+@bmodel('impl Bdd::cardinality')
+def _cardinality(e, c, a): return float(len(sat_list(e, deref(a[0]))))
+@bmodel('impl Bdd::eval_in')
+def _eval_in(e, c, a): return truth(e, deref(a[0]).tab[deref(a[1]).a])
+@bmodel('impl BddValuation::new')
+def _val_new(e, c, a):
+    v = deref(a[0]); items = v.items if isinstance(v, VecObj) else v.aslist()
+    return BioValuation(sum((1 << i) for i, x in enumerate(items) if truth(e, x)))
+@bmodel('impl BddValuation::all_false')
+def _val_all_false(e, c, a): return BioValuation(0)
+@bmodel('impl BddValuation::vector', 'impl BddValuation::to_values')
+def _val_vector(e, c, a): raise Unsupported('BddValuation::vector needs the number of variables (not kept by the model)')
+@bmodel('impl Bdd::is_valuation')
+def _is_valuation(e, c, a): return len(sat_list(e, deref(a[0]))) == 1
+@bmodel('impl Bdd::and_not')
+def _and_not(e, c, a): return pointwise(lambda p, q: _and(p, _not(q)), deref(a[0]), deref(a[1]))
+@bmodel('impl Bdd::if_then_else')
+def _bite(e, c, a):
+    i, t, el = deref(a[0]), deref(a[1]), deref(a[2])
+    return BioBdd(i.n, [_or(_and(x, y), _and(_not(x), z)) for x, y, z in zip(i.tab, t.tab, el.tab)])
+def forall(b, vs):
+    tab = list(b.tab)
+    for i in vs: tab = [_and(tab[a & ~(1 << i)], tab[a | (1 << i)]) for a in range(1 << b.n)]
+    return BioBdd(b.n, tab)
+@bmodel('impl Bdd::var_for_all')
+def _var_for_all(e, c, a): return forall(deref(a[0]), [varidx(a[1])])
+@bmodel('impl Bdd::for_all')
+def _for_all(e, c, a): return forall(deref(a[0]), vars_of(a[1]))
+@bmodel('impl Bdd::var_project', 'impl Bdd::var_exists')
+def _var_project(e, c, a): return exists(deref(a[0]), [varidx(a[1])])
+@bmodel('impl Bdd::project')
+def _project(e, c, a): return exists(deref(a[0]), vars_of(a[1]))
+@bmodel('impl Bdd::is_clause')
+def _is_clause(e, c, a): return len(paths_to_one(e, deref(a[0]))) == 1
+
+@bmodel('impl BddVariableSet::mk_var')
+def _mk_var(e, c, a): return var_fn(len(unguard(a[0]).names), varidx(a[1]))
+@bmodel('impl BddVariableSet::mk_not_var')
+def _mk_not_var(e, c, a):
+    n = len(unguard(a[0]).names); i = varidx(a[1]); return BioBdd(n, [not bool((x >> i) & 1) for x in range(1 << n)])
+@bmodel('impl BddVariableSet::mk_literal')
+def _mk_literal(e, c, a):
+    n = len(unguard(a[0]).names); i = varidx(a[1]); val = bool(truth(e, a[2]))
+    return BioBdd(n, [bool((x >> i) & 1) == val for x in range(1 << n)])
+@bmodel('impl BddVariableSet::mk_var_by_name')
+def _mk_var_by_name(e, c, a):
+    vs = unguard(a[0]); s = pystr(a[1])
+    if s not in vs.names: raise RustPanic('biodivine: variable %s is not known in this set' % s)
+    return var_fn(len(vs.names), vs.names.index(s))
+@bmodel('impl BddVariableSet::var_by_name')
+def _var_by_name(e, c, a):
+    vs = unguard(a[0]); s = pystr(a[1])
+    return Some(Struct([vs.names.index(s)])) if s in vs.names else NONE()
+@bmodel('impl BddVariableSet::name_of')
+def _name_of(e, c, a): return StrBuf(unguard(a[0]).names[varidx(a[1])])
+@bmodel('impl BddVariableSet::num_vars')
+def _vs_num_vars(e, c, a): return len(unguard(a[0]).names)
+@bmodel('impl BddVariableSet::mk_const')
+def _mk_const(e, c, a): return const(len(unguard(a[0]).names), bool(truth(e, a[1])))
+def clause(e, vs, pv, conj):
+    n = len(vs.names); vals = deref(pv).vals
+    if conj: return BioBdd(n, [all(bool((x >> i) & 1) == v for i, v in vals.items()) for x in range(1 << n)])
+    return BioBdd(n, [any(bool((x >> i) & 1) == v for i, v in vals.items()) for x in range(1 << n)])
+@bmodel('impl BddVariableSet::mk_conjunctive_clause')
+def _mk_conj(e, c, a): return clause(e, unguard(a[0]), a[1], True)
+@bmodel('impl BddVariableSet::mk_disjunctive_clause')
+def _mk_disj(e, c, a): return clause(e, unguard(a[0]), a[1], False)
+@bmodel('impl BddVariableSet::eval_expression_string')
+def _eval_expression_string(e, c, a): raise Unsupported('biodivine expression parser (eval_expression_string) is not modelled')
+@bmodel('impl BddVariable::to_index')
+def _var_to_index(e, c, a): return varidx(a[0])
+@bmodel('impl BddVariable::from_index')
+def _var_from_index(e, c, a): return Struct([a[0]])
+@bmodel('impl BddPointer::from_bool')
+def _ptr_from_bool(e, c, a): return Struct([1 if truth(e, a[0]) else 0])
+@bmodel('impl BddPointer::as_bool')
+def _ptr_as_bool(e, c, a):
+    p = _ptr(a[0]); return Some(bool(p)) if p <= 1 else NONE()
